@@ -1,0 +1,46 @@
+//! Verification hooks (feature `verif` only): re-exports of crate-internal items so that an
+//! external harness crate can drive them. Adds no behaviour.
+pub mod configuration { pub use crate::configuration::*; }
+pub mod date_utils { pub use crate::date_utils::*; }
+pub mod discret_mod { pub use crate::discret::*; }
+pub mod event_service { pub use crate::event_service::*; }
+pub mod peer_connection_service { pub use crate::peer_connection_service::*; }
+pub mod security { pub use crate::security::*; }
+pub mod signature_verification_service { pub use crate::signature_verification_service::*; }
+pub mod database {
+    pub use crate::database::*;
+    pub mod authorisation_service { pub use crate::database::authorisation_service::*; }
+    pub mod daily_log { pub use crate::database::daily_log::*; }
+    pub mod deletion { pub use crate::database::deletion::*; }
+    pub mod edge { pub use crate::database::edge::*; }
+    pub mod graph_database { pub use crate::database::graph_database::*; }
+    pub mod mutation_query { pub use crate::database::mutation_query::*; }
+    pub mod node { pub use crate::database::node::*; }
+    pub mod query { pub use crate::database::query::*; }
+    pub mod room { pub use crate::database::room::*; }
+    pub mod room_node { pub use crate::database::room_node::*; }
+    pub mod sqlite_database { pub use crate::database::sqlite_database::*; }
+    pub mod system_entities { pub use crate::database::system_entities::*; }
+    pub mod query_language {
+        pub use crate::database::query_language::*;
+        pub mod data_model_parser { pub use crate::database::query_language::data_model_parser::*; }
+        pub mod deletion_parser { pub use crate::database::query_language::deletion_parser::*; }
+        pub mod mutation_parser { pub use crate::database::query_language::mutation_parser::*; }
+        pub mod parameter { pub use crate::database::query_language::parameter::*; }
+        pub mod query_parser { pub use crate::database::query_language::query_parser::*; }
+    }
+}
+pub mod network {
+    pub use crate::network::*;
+    pub mod beacon { pub use crate::network::beacon::*; }
+    pub mod endpoint { pub use crate::network::endpoint::*; }
+    pub mod multicast { pub use crate::network::multicast::*; }
+    pub mod peer_manager { pub use crate::network::peer_manager::*; }
+    pub mod shared_buffers { pub use crate::network::shared_buffers::*; }
+}
+pub mod synchronisation {
+    pub use crate::synchronisation::*;
+    pub mod peer_inbound_service { pub use crate::synchronisation::peer_inbound_service::*; }
+    pub mod peer_outbound_service { pub use crate::synchronisation::peer_outbound_service::*; }
+    pub mod room_locking_service { pub use crate::synchronisation::room_locking_service::*; }
+}
